@@ -87,3 +87,45 @@ package fox
 //@   loop 1: invariant len(buf) == 0
 //@   loop 1: invariant w == r || (w + 1 == r && w >= 1 && w < n && p[w] == '/')
 //@   loop 4: invariant len(buf) == 0 && w == r
+
+//@ -- ---------------------------------------------------------------- C10: parseRoute
+
+//@ -- nextClose(u, k): index of the first '}' after position k (len(u) or more if there is none)
+//@ fun nextClose(u string, k int) int
+//@ axiom nextClose.range: forall u string, k int :: k < nextClose(u, k)
+//@ axiom nextClose.close: forall u string, k int :: nextClose(u, k) < len(u) ==> u[nextClose(u, k)] == '}'
+//@ axiom nextClose.first: forall u string, k int, m int :: k < m && m < nextClose(u, k) && m < len(u) ==> u[m] != '}'
+//@ exec nextClose = func() int { for j := k + 1; j < len(u); j++ { if u[j] == '}' { return j } }; return max(len(u), k+1) }()
+//@ -- cnt(u, i): number of '{' in u[0:i]
+//@ fun cnt(u string, i int) int
+//@ axiom cnt.zero: forall u string :: cnt(u, 0) == 0
+//@ axiom cnt.step: forall u string, i int :: i >= 0 ==> cnt(u, i+1) == cnt(u, i) + (u[i] == '{' ? 1 : 0)
+
+//@ exec cnt = func() int { n := 0; for j := 0; j < i && j < len(u); j++ { if u[j] == '{' { n++ } }; return n }()
+
+//@ -- a name character of a wildcard opened at k
+//@ pred nameChar(u string, k int, m int, endHost int) = u[m] != '/' && u[m] != '*' && u[m] != '{' && u[m] != '}' && (k < endHost ==> u[m] != '.')
+//@ -- the wildcard opened by the '{' at k is well formed and closed before position lim
+//@ pred closedWild(u string, k int, endHost int, maxKey int, lim int) = nextClose(u, k) < lim && nextClose(u, k) < len(u) && nextClose(u, k) >= k+2 && nextClose(u, k) - k - 1 <= maxKey && (forall m int :: k < m && m < nextClose(u, k) ==> nameChar(u, k, m, endHost)) && (nextClose(u, k)+1 == len(u) || u[nextClose(u, k)+1] == '/' || (k < endHost && u[nextClose(u, k)+1] == '.'))
+
+//@ func (*Router).parseRoute props C10
+//@   requires fox != nil
+//@   replay-input maxParams = fox.maxParams
+//@   replay-input maxKey = fox.maxParamKeyBytes
+//@   replay-setup fox := &Router{maxParams: uint16(maxParams), maxParamKeyBytes: uint16(maxKey)}
+//@   ensures endhost: result2 == nil ==> 0 <= result1 && result1 < len(url) && url[result1] == '/' && forall k int :: 0 <= k && k < result1 ==> url[k] != '/'
+//@   ensures star-brace: result2 == nil ==> forall k int :: 0 <= k && k < len(url) && url[k] == '*' ==> k > result1 && k+1 < len(url) && url[k+1] == '{'
+//@   ensures wildcard: result2 == nil ==> forall k int :: 0 <= k && k < len(url) && url[k] == '{' ==> closedWild(url, k, result1, fox.maxParamKeyBytes, len(url))
+//@   ensures count: result2 == nil ==> result0 == cnt(url, len(url)) && result0 <= fox.maxParams
+//@   loop 1: invariant idx: 0 <= i && i <= len(url)+1 && (i == len(url)+1 ==> state == stateCatchAll)
+//@   loop 1: invariant eh: 0 <= endHost && endHost < len(url) && url[endHost] == '/' && forall k int :: 0 <= k && k < endHost ==> url[k] != '/'
+//@   loop 1: invariant st: state == stateDefault || state == stateParam || state == stateCatchAll
+//@   loop 1: invariant delim: delim == ((i > endHost || endHost == 0) ? '/' : '.')
+//@   loop 1: invariant stars: forall k int :: 0 <= k && k < i && k < len(url) && url[k] == '*' ==> k > endHost && k+1 < i && (k+1 < len(url) ==> url[k+1] == '{')
+//@   loop 1: invariant closed: forall k int :: 0 <= k && k < i && k < len(url) && url[k] == '{' && !(state != stateDefault && k == startParam) ==> closedWild(url, k, endHost, fox.maxParamKeyBytes, i)
+//@   loop 1: invariant open: state != stateDefault ==> 0 <= startParam && startParam < i && (startParam < len(url) ==> url[startParam] == '{') && (inParam <==> i - startParam >= 2) && (i <= len(url) ==> i - startParam - 1 <= fox.maxParamKeyBytes)
+//@   loop 1: invariant name: state != stateDefault ==> forall m int :: startParam < m && m < i && m < len(url) ==> nameChar(url, startParam, m, endHost)
+//@   loop 1: invariant hostcatch: state == stateCatchAll ==> startParam > endHost
+//@   loop 1: invariant count: (i <= len(url) ==> paramCnt == cnt(url, i)) && paramCnt <= fox.maxParams
+//@   loop 1: invariant noname: state == stateDefault ==> !inParam
+//@   loop 1: decreases len(url) + 1 - i
